@@ -312,11 +312,17 @@ func (pv *prov) walk(v ssa.Value, pd, d int) {
 		}
 	case *ssa.Field:
 		pv.add(fieldLeaf(x.X.Type(), x.Field))
+		if pv.opts.WithBase {
+			o2 := pv.opts
+			o2.WithBase = false
+			for _, b := range pv.p.Leaves(x.X, o2) {
+				pv.add("base:" + b)
+			}
+		}
 	case *ssa.FieldAddr:
 		// address of a field (pointer provenance)
-		if localAlloc(x.X) == nil {
-			pv.add("addr:" + fieldLeaf(x.X.Type(), x.Field)[6:])
-		} else {
+		pv.add("addr:" + fieldLeaf(x.X.Type(), x.Field)[6:])
+		if localAlloc(x.X) != nil {
 			pv.add("alloc:" + typeStr(deref(x.Type())))
 		}
 	case *ssa.Lookup:
